@@ -13,6 +13,23 @@ sys.dont_write_bytecode = True
 BASELINE = json.load(open('/root/.vp/BASELINE.json'))['cmd'].replace(
     '--junitxml=<file>', '--junitxml=/tmp/circus_baseline.junit.xml')
 
+sys.path.insert(0, HERE)
+from gen_rule_index import rules_of  # noqa: E402
+import re  # noqa: E402
+
+
+def level_text(pid, explanation):
+    """The module's explanation, plus every rule declared in the module that the
+    explanation does not name yet (rules added after a missed seeded change)."""
+    later = ['%s %s' % (rid, doc.split(' (shared with')[0].split(': ')[0].replace('(shared) ', ''))
+             for rid, doc in rules_of(pid).items()
+             if not re.search(r'\b%s\b' % rid, explanation)]
+    if not later:
+        return explanation
+    return explanation.rstrip() + ' Rules added since (index in DESIGN.md section 13): ' + \
+        '; '.join(later) + '.'
+
+
 props = [json.loads(l) for l in open(os.path.join(VERIF, 'properties.jsonl'))]
 checks = []
 na = []
@@ -37,7 +54,7 @@ for p in props:
         'engine': 'circus-sa',
         'level_claimed': {
             'category': 'other',
-            'text': mod.EXPLANATION,
+            'text': level_text(pid, mod.EXPLANATION),
             'design_ref': 'DESIGN.md section 3, %s' % pid,
         },
         'level_note': 'Static analysis of the parsed source only (no execution). '
